@@ -55,6 +55,11 @@ func hostileData() map[string]any {
 		"s":    "héllo wörld",
 		"es":   "",
 		"num":  "42",
+		"bad1": "\xff",
+		"bad2": "\xc3",
+		"bad3": "\xe2\x82",
+		"bad4": "\x80z",
+		"bad5": "a\xffb\xc3",
 		"t":    true,
 		"no":   false,
 		"n":    nil,
@@ -72,7 +77,7 @@ func hostileData() map[string]any {
 	}
 }
 
-var hostileNames = []string{"i", "z", "neg", "big", "low", "u", "f", "fz", "fneg", "nan", "inf", "ninf", "tiny", "huge", "s", "es", "num", "t", "no", "n", "arr", "ea", "na", "mix", "aa", "obj", "nm", "row", "rowp", "nilp", "rows", "nope"}
+var hostileNames = []string{"i", "z", "neg", "big", "low", "u", "f", "fz", "fneg", "nan", "inf", "ninf", "tiny", "huge", "bad1", "bad2", "bad3", "bad4", "bad5", "s", "es", "num", "t", "no", "n", "arr", "ea", "na", "mix", "aa", "obj", "nm", "row", "rowp", "nilp", "rows", "nope"}
 
 var allBuiltinNames = func() []string {
 	seen := map[string]bool{}
@@ -371,7 +376,7 @@ func init() {
 				name string
 			}
 			recvs := []string{
-				`""`, `"a"`, `"héllo"`, `"中é"`, `"  pad  "`, `"12"`, `"-5"`, `"a,b"`, "s", "es",
+				`""`, `"a"`, `"héllo"`, `"中é"`, `"  pad  "`, `"12"`, `"-5"`, `"a,b"`, "s", "es", "bad1", "bad2", "bad3", "bad4", "bad5", "\"\xff\"", "\"\xe2\x82\"", "\"z\xc3\"",
 				"[]", "[1, 2, 3]", `["a", "b"]`, "[[1], [2]]", "[{a: 1}]", "arr", "ea", "na", "mix", "rows",
 				"0", "7", "neg", "big", "low", "(0 - 1)", "1.5", "fz", "fneg", "(0.0 - 2.5)", "1000000.5", "nan", "inf", "ninf", "tiny", "huge", "(0.0 / 0.0)", "(1.0 / 0.0)", "true", "false", "t",
 				"nil", "n", "obj", "{}", "row", "nilp",
@@ -453,6 +458,26 @@ func init() {
 						data := map[string]any{"u": map[string]any{"K" + id: n}, "s": sv.Interface()}
 						return src, data, fmt.Sprintf("%d %d x%s 2 2 2", n, n, id)
 					})
+				}})
+			// the line of a run-time fault after k lines that end in LF, CRLF, or hold a stray CR
+			eols := []string{"\n", "\r\n", "\r \n", " \r x\n"}
+			secs = append(secs, core.Section{Name: "fault-lines", Exhaustive: true, N: len(faultExprs) * len(eols) * 5,
+				Run: func(c *core.Ctx, i int) {
+					k := i % 5
+					i /= 5
+					eol := eols[i%len(eols)]
+					f := faultExprs[i/len(eols)]
+					src := strings.Repeat("a line"+eol, k) + "{{ " + f + " }}" + eol + "after" + eol
+					c.Input(map[string]any{"source": src, "data": "hostileData()"})
+					got := evalString(c, src, data)
+					c.Nontrivial(src)
+					if got.Panicked {
+						return
+					}
+					line, _, ok := ErrLinePath(got.Err)
+					if got.Err == nil || !ok || line != k+1 {
+						c.Violation("fault-line", fmt.Sprintf("the fault on line %d gave %s", k+1, got.Describe()), map[string]any{"source": src})
+					}
 				}})
 			// one call site evaluated in several passes with receivers of changing kinds, for every built-in name
 			mixedRecvs := []string{`"abc"`, "[1, 2]", "7", "2.5", "true", "nil", "{a: 1}", "nilp", "row"}
@@ -616,6 +641,9 @@ func plantedData(r *rand.Rand) (map[string]any, string, bool) {
 	}{
 		{nilPtr, "nil *struct", false}, {nilIntPtr, "nil *int", false}, {nil, "nil", false}, {[]any(nil), "nil []any", false},
 		{map[string]any(nil), "nil map", false}, {&c09Row{}, "&struct{nil fields}", false},
+		{map[any]any{1: "x"}, "map[any]any{1: x}", false}, {map[any]any{nil: 1}, "map[any]any{nil: 1}", false}, {map[any]any{"a": 1, true: 2}, "map[any]any{a, true}", false},
+		{map[int]string{3: "x"}, "map[int]string", false}, {map[bool]int{true: 1}, "map[bool]int", false}, {map[float64]int{1.5: 1}, "map[float64]int", false},
+		{map[[2]int]int{{1, 2}: 1}, "map[[2]int]int", false}, {map[*int]int{nil: 1}, "map[*int]int", false}, {map[any]string{"k": "v"}, "map[any]string", false},
 		{make(chan int), "chan", true}, {func() {}, "func", true}, {complex(1, 2), "complex", true}, {[2]int{1, 2}, "[2]int", true},
 		{unsupportedStruct{}, "struct{chan}", true}, {&unsupportedStruct{}, "&struct{chan}", true},
 		{[]chan int{nil}, "[]chan", true}, {map[string]func(){"f": nil}, "map[string]func", true},
